@@ -95,7 +95,6 @@ def generate(rng, tier):
                 cases.append({'ast': ast, 'trace': trace, 'kind': rng.choice(['keys', 'groupby']), 'km': g.int_key()})
     # (b) items that are == but not identical (3 / 3.0, 0 / False / 0.0 / -0.0, 1 / True): which OBJECT a group's result
     #     is must not depend on the execution mode; every operator that selects or keeps items
-    pool = [enc(v) for v in (3, 3.0, 0, False, 0.0, -0.0, 1, True, 1.0, 2, 2.0)]
     keepers = [['last'], ['first'], ['duc', None], ['take', 2], ['max', None, 1], ['min', None, 1], ['max', None, 0], ['min', None, 0],
                ['identity'], ['filter', ['id']], ['to_list'], ['batch', 2]]
     for _ in range(reps):
@@ -108,7 +107,16 @@ def generate(rng, tier):
                     ast = strip_fallible(ast)
                 trace = muxgen.gen_trace(rng, muxgen.INT, max_items=rng.choice([None, 4]))
                 # runs of equal-but-not-identical values, also at the end of a group
-                trace = [(['n', e[1], rng.choice(pool)] if e[0] == 'n' else e) for e in trace]
+                classes = [[3, 3.0], [0, False, 0.0, -0.0], [1, True, 1.0], [2, 2.0]]
+                runs = {}
+
+                def nxt(k):
+                    q = runs.setdefault(k, [])
+                    if not q:
+                        cl = rng.choice(classes)
+                        q.extend(rng.sample(cl, rng.randint(2, len(cl))) if rng.random() < 0.7 else [rng.choice(cl)])
+                    return enc(q.pop(0))
+                trace = [(['n', e[1], nxt(tuple(e[1]))] if e[0] == 'n' else e) for e in trace]
                 cases.append({'ast': ast, 'trace': trace, 'kind': 'keys', 'km': ['id']})
     return cases
 
